@@ -1,4 +1,5 @@
 import MjProof.Model.SolverCert
+import MjProof.Model.IslandSep
 import Drivers.Common
 /-
 Line protocol of the C10 certificate checker and line-search model.
@@ -12,8 +13,13 @@ Floats are the 16 hex digits of their IEEE bits, ints decimal.
      (the checker of Props/C10.lean: cost(a) − min cost ≤ ½ g·w and ‖a − a*‖²_M ≤ g·w when M w = g)
   ls <tol> <lsiter> <scale> <v> <M> <Ma> <qfs> <ne> <nf> <nrows> {D R floss Jaref J}*nrows
      -> alpha improvement LSresult LSiter LSslope            (mirrors the `ls` op of harness/c/c10_solvers.c)
+  isl <nv> <nefc> <nisland>  M*(nv*nv)  J*(nefc*nv)  dof_island*nv  efc_island*nefc  group*nefc
+     labels: -1 (outside every island) or 0..nisland-1; group: a natural number, equal for rows whose costs are coupled
+     -> ok                                        the partition makes the documented cost block separable
+     -> bad M <i> <j> .. | J <r> <j> .. | free <r> .. | grp <r> <r'> ..     the offending index pairs (Model/IslandSep.lean)
+     (the checker of Props/C10.lean `island_partition_checker_sound` / `island_solve_is_global_minimiser`)
 -/
-open MjProof MjProof.Driver MjProof.Constraint MjProof.Cert MjProof.PrimalSearch
+open MjProof MjProof.Driver MjProof.Constraint MjProof.Cert MjProof.PrimalSearch MjProof.IslandSep
 
 def fl? (s : String) : Option Float := floatOfBits? s
 def fls? (l : List String) : Option (List Float) := l.mapM fl?
@@ -52,6 +58,62 @@ def parseLRow : List String → Option (LRow Float)
     | some d, some r, some fl, some ja, some j => some ⟨d, r, fl, ja, j⟩
     | _, _, _, _, _ => none
   | _ => none
+
+theorem idx_lt {n m : Nat} (i : Fin m) (j : Fin n) : i.val * n + j.val < m * n := by
+  have h1 : i.val * n + j.val < i.val * n + n := Nat.add_lt_add_left j.isLt _
+  have h2 : i.val * n + n = (i.val + 1) * n := by rw [Nat.add_mul, Nat.one_mul]
+  have h3 : (i.val + 1) * n ≤ m * n := Nat.mul_le_mul_right n i.isLt
+  omega
+
+/-- non-zero pattern of a row-major `rows × cols` matrix -/
+def nzOf (rows cols : Nat) (a : Array Float) (h : a.size = rows * cols) : Fin rows → Fin cols → Bool :=
+  fun i j => (a[i.val * cols + j.val]'(by rw [h]; exact idx_lt i j)) != 0.0
+
+def label? (nisl : Nat) (s : String) : Option (Option (Fin nisl)) :=
+  if s = "-1" then some none else
+  match s.toNat? with
+  | some k => if h : k < nisl then some (some ⟨k, h⟩) else none
+  | none => none
+
+def showPairs {a b : Nat} (tag : String) (l : List (Fin a × Fin b)) : String :=
+  tag ++ String.join ((l.take 6).map (fun p => " " ++ toString p.1.val ++ " " ++ toString p.2.val))
+
+def islStep (nv nefc nisl : Nat) (rest : List String) : String :=
+  let nM := nv * nv
+  let nJ := nefc * nv
+  if rest.length ≠ nM + nJ + nv + nefc + nefc then "bad-op" else
+  let r1 := rest.drop nM
+  let r2 := r1.drop nJ
+  let r3 := r2.drop nv
+  let r4 := r3.drop nefc
+  match fls? (rest.take nM), fls? (r1.take nJ), (r2.take nv).mapM (label? nisl), (r3.take nefc).mapM (label? nisl),
+        r4.mapM (fun (t : String) => t.toNat?) with
+  | some M, some J, some ld, some lr, some gr =>
+    let Ma := M.toArray
+    let Ja := J.toArray
+    let lda := ld.toArray
+    let lra := lr.toArray
+    let gra := gr.toArray
+    if hM : Ma.size = nv * nv then
+      if hJ : Ja.size = nefc * nv then
+        if hd : lda.size = nv then
+          if hr : lra.size = nefc then
+            if hg : gra.size = nefc then
+              let nzM := nzOf nv nv Ma hM
+              let nzJ := nzOf nefc nv Ja hJ
+              let labD : Fin nv → Option (Fin nisl) := fun j => lda[j.val]'(by rw [hd]; exact j.isLt)
+              let labR : Fin nefc → Option (Fin nisl) := fun r => lra[r.val]'(by rw [hr]; exact r.isLt)
+              let grp : Fin nefc → Nat := fun r => gra[r.val]'(by rw [hg]; exact r.isLt)
+              if partitionOk nzM nzJ labD labR none grp then "ok" else
+                "bad " ++ showPairs "M" (badM nzM labD) ++ " | " ++ showPairs "J" (badJ nzJ labD labR) ++ " | free" ++
+                  String.join (((freeRows none labR).take 6).map (fun r => " " ++ toString r.val)) ++ " | " ++
+                  showPairs "grp" (badGrp grp labR)
+            else "bad-op"
+          else "bad-op"
+        else "bad-op"
+      else "bad-op"
+    else "bad-op"
+  | _, _, _, _, _ => "bad-op"
 
 def step (line : String) : String :=
   match words line with
@@ -93,6 +155,10 @@ def step (line : String) : String :=
           toString o.res.lsIter ++ " " ++ floatBits o.slope
       | none => "bad-op"
     | _, _, _, _, _, _, _, _, _, _ => "bad-op"
+  | "isl" :: nv :: nefc :: nisl :: rest =>
+    match nv.toNat?, nefc.toNat?, nisl.toNat? with
+    | some nv, some nefc, some nisl => islStep nv nefc nisl rest
+    | _, _, _ => "bad-op"
   | _ => "bad-op"
 
 def main : IO Unit := runStateless step
